@@ -5,6 +5,7 @@ import (
 	"fmt"
 	"os"
 	"path/filepath"
+	"regexp"
 	"runtime"
 	"sort"
 	"strings"
@@ -144,6 +145,35 @@ func explore(l *loaded, insts []Inst, opt options) ([]*instResult, runStats, err
 	}
 	stats := runStats{Funcs: map[string]bool{}, Stubs: map[string]bool{}}
 	var smu sync.Mutex
+	stopProgress := make(chan struct{})
+	defer close(stopProgress)
+	if os.Getenv("KV_PROGRESS") != "" {
+		go func() {
+			tk := time.NewTicker(10 * time.Second)
+			defer tk.Stop()
+			for {
+				select {
+				case <-stopProgress:
+					return
+				case <-tk.C:
+					tot := 0
+					var big []string
+					for _, r := range results {
+						r.mu.Lock()
+						tot += r.Paths
+						if r.Paths > 2000 {
+							big = append(big, fmt.Sprintf("%s:%d", r.Inst.Key(), r.Paths))
+						}
+						r.mu.Unlock()
+					}
+					p.mu.Lock()
+					q := len(p.stack)
+					p.mu.Unlock()
+					fmt.Fprintf(os.Stderr, "progress: %d paths, queue %d, big: %v\n", tot, q, big)
+				}
+			}
+		}()
+	}
 	var wg sync.WaitGroup
 	var firstErr error
 	for w := 0; w < opt.workers; w++ {
@@ -362,7 +392,11 @@ func nondetVec(o exec.Outcome) ([]uint64, []string) {
 }
 
 func sig(in Inst, o exec.Outcome) string {
-	return fmt.Sprintf("%s%v|%s|%s|%s", in.Fn, in.Args, o.Kind, o.Detail, o.Site)
+	d := o.Detail
+	if o.Kind == "panic" || o.Kind == "region" {
+		d = digitsRe.ReplaceAllString(d, "N")
+	}
+	return fmt.Sprintf("%s%v|%s|%s|%s", in.Fn, in.Args, o.Kind, d, o.Site)
 }
 
 func runCheck(prop, tier string, opt options) int {
@@ -447,7 +481,7 @@ func runCheck(prop, tier string, opt options) int {
 			continue
 		}
 		v, _ := nondetVec(g.o)
-		cases = append(cases, nativeCase{ID: id, Pkg: g.in.Pkg, Harness: g.in.Fn, Args: g.in.Args, Nondet: v})
+		cases = append(cases, nativeCase{ID: id, Pkg: g.in.Pkg, Harness: g.in.Fn, Args: g.in.Args, Nondet: v, Twin: isTwinKind(g.o)})
 		caseOf[id] = g
 		id++
 	}
@@ -477,6 +511,9 @@ func runCheck(prop, tier string, opt options) int {
 				g.conf = nr.Outcome
 				if nr.Outcome == "panic" {
 					g.conf = "panic: " + nr.Detail
+				}
+				if nr.TwinDiff {
+					g.conf = "twin-differs: " + nr.Detail
 				}
 				continue
 			}
@@ -528,19 +565,19 @@ func runCheck(prop, tier string, opt options) int {
 			note = "no model (solver unknown)"
 		case g.o.Kind == "panic":
 			confirmed = strings.HasPrefix(g.conf, "panic")
+		case isTwinKind(g.o):
+			confirmed = strings.HasPrefix(g.conf, "twin-differs") || strings.HasPrefix(g.conf, "panic")
+			note = "dependence on bytes outside the input / on stale buffer content; native confirmation = the same input with different garbage gives a different result"
 		case g.o.Kind == "assert":
 			confirmed = g.conf == "assert:"+g.o.Detail
 		case g.o.Kind == "unwind":
 			confirmed = g.conf == "hang"
-		case g.o.Kind == "region":
-			confirmed = false
-			note = "over-read of the input region; influence on the result is decided by the twin assertion of the harness"
 		}
 		if g.o.Kind == "unwind" && !confirmed {
 			inconclusive = append(inconclusive, fmt.Sprintf("%s: unwinding bound hit (%s @ %s), native run: %s", g.in.Key(), g.o.Detail, g.o.Site, g.conf))
 			continue
 		}
-		if (g.o.Kind == "panic" || g.o.Kind == "assert") && !confirmed && !g.in.NoNative {
+		if (g.o.Kind == "panic" || g.o.Kind == "assert" || g.o.Kind == "region") && !confirmed && !g.in.NoNative {
 			inconclusive = append(inconclusive, fmt.Sprintf("%s: counterexample did not reproduce natively (%s %s @ %s; native: %s)", g.in.Key(), g.o.Kind, g.o.Detail, g.o.Site, g.conf))
 			continue
 		}
@@ -674,6 +711,13 @@ func runCheck(prop, tier string, opt options) int {
 	}
 	return 0
 }
+
+// isTwinKind: violations whose native confirmation is a twin run (same input, different garbage).
+func isTwinKind(o exec.Outcome) bool {
+	return o.Kind == "region" || (o.Kind == "assert" && strings.Contains(o.Detail, ".stale"))
+}
+
+var digitsRe = regexp.MustCompile(`[0-9]+`)
 
 func defaultWorkers() int {
 	n := runtime.NumCPU()
